@@ -11,6 +11,11 @@ import vlib
 
 
 def main():
+    # Python randomises string hashing per process; anything that iterates over a set of strings (in a generator, in WNTR,
+    # in networkx) would make a run depend on the process. Pin it so that a (seed, tier) pair always explores the same inputs.
+    if os.environ.get("PYTHONHASHSEED") is None:
+        os.environ["PYTHONHASHSEED"] = "0"
+        os.execv(sys.executable, [sys.executable] + sys.argv)
     if len(sys.argv) < 2:
         print("usage: check.py Cxx [--tier quick|thorough] [--seed N] [--replay file]")
         sys.exit(2)
